@@ -1306,9 +1306,9 @@ class Atoms:
         for ucmult in ucmults:
             transatoms = self.copy()
             transatoms.translate(np.matmul(transatoms.cell.T, ucmult))
-            repl_atoms.extend(transatoms, offsets=(0,0,0,0))
+            repl_atoms.extend(transatoms, offsets=(0,0,0,0,0))
 
-        repl_atoms.cell = self.cell * repldims
+        repl_atoms.cell = self.cell * np.array(repldims).reshape(3, 1)
         return repl_atoms
 
     def _delete_and_reindex_atom_index_array(self, arr, sorted_deleted_indices):
